@@ -16,10 +16,9 @@ var replayTests = map[string]string{
 	"wire:(*injectorGen).funcProviderCall": "TestReplay_funcProviderCall",
 	"wire:injectPass":                      "TestReplay_injectPass",
 	"wire:funcOutput":                      "TestReplay_funcOutput",
-	"wire:buildProviderMap":                "TestReplay_buildProviderMap",
-	"wire:buildProviderMap$1":              "TestReplay_buildProviderMap",
+	"wire:buildProviderMap":                "TestReplay_frontend",
+	"wire:buildProviderMap$1":              "TestReplay_frontend",
 	"wire:verifyArgsUsed":                  "TestReplay_verifyArgsUsed",
-	"wire:zeroValue":                       "TestReplay_zeroValue",
 	"wire:checkField":                      "TestReplay_checkField",
 	"wire:solve":                           "TestReplay_solve",
 	"wire:(*gen).inject":                   "TestReplay_inject",
@@ -29,6 +28,8 @@ var replayTests = map[string]string{
 	"wire:(*objectCache).get":              "TestReplay_frontend",
 	"wire:copyAST$1":                       "TestReplay_copyAST",
 	"wire:processInterfaceValue":           "TestReplay_frontend",
+	"wire:processBind":                     "TestReplay_frontend",
+	"wire:zeroValue":                       "TestReplay_zeroValue",
 	"main:(*diffCmd).Execute":              "TestReplay_diffCmd",
 	"main:(*genCmd).Execute":               "TestReplay_genCmd",
 }
